@@ -7,6 +7,8 @@ CONSTANTS
   NestedOrder = "decl"
   FileOrder = "hash"
   ItemOrder = "id"
+  Stem <- MCStem
+  NameScope = "module"
 INVARIANT OutputIsFunctionOfInput
 PROPERTY Terminates
 CHECK_DEADLOCK FALSE
